@@ -4,3 +4,9 @@ import router_check
 
 def main(tier, replay=None):
     return router_check.main("C20", tier, replay)
+
+
+def gen():
+    err = router_check.gen()
+    if err:
+        raise RuntimeError(err)
